@@ -54,7 +54,23 @@ public:
 
     constexpr auto operator=(mapping const&) noexcept -> mapping& = default;
 
-    [[nodiscard]] constexpr auto required_span_size() const noexcept -> index_type;
+    [[nodiscard]] constexpr auto required_span_size() const noexcept -> index_type
+    {
+        // [mdspan.layout.stride.expo] REQUIRED-SPAN-SIZE(extents(), strides()):
+        // 1 for rank 0, 0 if the index space is empty, else 1 + sum((extent(r) - 1) * stride(r))
+        auto size = index_type(1);
+        if constexpr (rank > 0) {
+            for (rank_type r{0}; r < rank; ++r) {
+                if (_extents.extent(r) == index_type(0)) {
+                    return index_type(0);
+                }
+            }
+            for (rank_type r{0}; r < rank; ++r) {
+                size = static_cast<index_type>(size + (_extents.extent(r) - index_type(1)) * _strides[r]);
+            }
+        }
+        return size;
+    }
     [[nodiscard]] constexpr auto extents() const noexcept -> extents_type const& { return _extents; }
     [[nodiscard]] constexpr auto strides() const noexcept -> array<index_type, rank> { return _strides; }
     [[nodiscard]] constexpr auto stride(rank_type i) const noexcept -> index_type
@@ -82,7 +98,12 @@ public:
 
     [[nodiscard]] static constexpr auto is_unique() noexcept -> bool { return true; }
     [[nodiscard]] static constexpr auto is_strided() noexcept -> bool { return true; }
-    [[nodiscard]] constexpr auto is_exhaustive() const noexcept -> bool;
+    [[nodiscard]] constexpr auto is_exhaustive() const noexcept -> bool
+    {
+        // the offsets of a unique mapping fill [0, required_span_size()) iff there are as many
+        // of them as multidimensional indices (also true for rank 0 and for an empty index space)
+        return static_cast<size_t>(required_span_size()) == _extents.fwd_prod_of_extents(rank);
+    }
 
     template <typename OtherMapping>
     friend constexpr auto operator==(mapping const&, OtherMapping const&) noexcept -> bool;
